@@ -1062,3 +1062,72 @@ func planC09(tier string, seed int64) (*Plan, error) {
 }
 
 func init() { Plans["C09"] = planC09 }
+
+// ---- C03 ----
+
+// attack templates: URL-, title-, alt-, attribute-, info-string- and cell-bearing constructs with a
+// window of fully symbolic bytes where the source text flows into markup.
+var c03Templates = []tmpl{
+	{"![XX](u \"t\")", 2, 2}, {"![a](XX \"t\")", 5, 2}, {"![a](u \"XX\")", 8, 2}, {"![a  \nXX](u)", 7, 2}, {"![*a*XX](u)", 5, 2},
+	{"[a](<XX> 'T')", 5, 2}, {"[a](u 'XX')", 7, 2}, {"[a](u (XX))", 7, 2}, {"<http://a.bXX>", 11, 2}, {"<a@b.cXX>", 6, 2},
+	{"# H {#XX}", 6, 2}, {"# H {.XX}", 6, 2}, {"# H {XX=v}", 5, 2}, {"# H {k=XX}", 7, 2}, {"# H {k=\"XX\"}", 8, 2}, {"# H {data-XX=1}", 10, 2}, {"# H {k='XX'}", 8, 2},
+	{"H {#i XX}\n===", 6, 2}, {"```XX\nc\n```", 3, 2}, {"~~~ a XX\nc\n~~~", 6, 2}, {"```go {XX}\nc\n```", 7, 2},
+	{"| a | XX |\n|---|:-:|\n| c | d |", 6, 2}, {"| a |\n|---|\n| XX |", 14, 2}, {"a[^1]\n\n[^1]: XX", 14, 2}, {"a[^XX]\n\n[^XX]: f", 3, 2},
+	{"t XX\n: d", 2, 2}, {"t\n: XX", 5, 2}, {"\"XX\" 'a'", 1, 2}, {"a--XX...", 3, 2}, {"- [ ] XX", 6, 2}, {"~~XX~~", 2, 2},
+	{"www.a.bXX c", 7, 2}, {"http://a.bc/XX d", 12, 2}, {"&XX;", 1, 2}, {"&#XX;", 2, 2}, {"&#xXX;", 3, 2}, {"<XX>", 1, 2}, {"<a XX>", 3, 2}, {"<!--XX-->", 4, 2},
+	{"[a][XX]\n\n[XX]: u 't'", 4, 2}, {"[a]: u \"XX\"\n\n[a]", 8, 2}, {"`XX`", 1, 2}, {"    XX", 4, 2}, {"> XX", 2, 2}, {"1. XX", 3, 2}, {"\\XX", 1, 2},
+}
+
+func planC03(tier string, seed int64) (*Plan, error) {
+	p := &Plan{MustReach: []string{"done"}}
+	thorough := tier == "thorough"
+	var cfgs []string
+	for i, e := range extSets {
+		for j, po := range []string{"", "autoid,attr"} {
+			ro := ""
+			if (i+j)%2 == 1 {
+				ro = "xhtml"
+			}
+			cfgs = append(cfgs, cfg(e, po, ro))
+			if thorough {
+				ro2 := "xhtml"
+				if ro == "xhtml" {
+					ro2 = ""
+				}
+				cfgs = append(cfgs, cfg(e, po, ro2))
+			}
+		}
+	}
+	core, coreX, all, allX := cfg("core", "", ""), cfg("core", "attr", "xhtml"), cfg(allExt, "autoid,attr", ""), cfg(allExt, "autoid,attr", "xhtml,hardwraps")
+	s3 := []string{core}
+	nwin := 150
+	if thorough {
+		s3 = []string{core, coreX, all, allX}
+		nwin = 3000
+	}
+	jobs, b, err := convertFamilies("H_c03_safe", tier, seed, cfgs, s3, []string{coreX, all}, nwin)
+	if err != nil {
+		return nil, err
+	}
+	tc := []string{allX}
+	if thorough {
+		tc = []string{allX, all, coreX}
+	}
+	jobs = append(jobs, tmplJobs("H_c03_safe", c03Templates, tc)...)
+	if thorough {
+		w3 := make([]tmpl, 0, len(c03Templates))
+		for _, t := range c03Templates {
+			w3 = append(w3, tmpl{t.Seed[:t.Pos] + "XXX" + t.Seed[t.Pos+2:], t.Pos, 3})
+		}
+		jobs = append(jobs, tmplJobs("H_c03_safe", w3[:20], []string{allX})...)
+	}
+	p.Jobs = jobs
+	b["attack templates"] = fmt.Sprintf("%d templates (image alt/src/title, link destination/title, autolinks, {#id .class k=v data-*} attribute blocks on ATX and Setext headings, info strings, table cells, footnote labels and bodies, definition terms, typographer, task lists, linkify, entities, raw HTML, reference labels/titles) with a 2-byte fully symbolic window x %v (thorough: 3-byte windows on the first 20)", len(c03Templates), tc)
+	b["configurations"] = "safe mode only: " + fmt.Sprint(cfgs)
+	p.Bounds = b
+	p.Assumptions = []string{"XML well-formedness is checked structurally (nesting, quoting, void elements written ' />', no '<' in attribute values, no duplicate attribute, every attribute has a value); character validity and named-entity declarations (XHTML DTD) are assumed, as the property allows ('whenever all its characters are representable')"}
+	p.Rule = "the output of every path is tokenised by an independent strict tokenizer executed symbolically in the harness"
+	return p, nil
+}
+
+func init() { Plans["C03"] = planC03 }
